@@ -6,6 +6,14 @@ import os
 HERE = os.path.dirname(os.path.dirname(os.path.abspath(__file__)))
 
 CHECKS = {
+    "C05": dict(
+        technique="split monitor + combination monitor: scripts assembled from known pieces and separator noise, compared with the pieces analysed alone (statement tap holders folded by the real SQLLineageHolder.of)",
+        category="exploration",
+        text="For thousands of scripts assembled from 1-5 known statements with every separator/noise variant (and tsql no-semicolon mode), statements() must be exactly "
+             "the pieces in order and the script's tables, table edges and column pairs must equal the fold of the pieces analysed on their own.",
+        design_ref="DESIGN.md §4 C05",
+        note="Both sides are normalised by an own comment/whitespace lexer; a tsql batch that sqlfluff itself cannot parse is counted as not accepted.",
+    ),
     "C06": dict(
         technique="runtime invariant monitor on live result graphs (taps on analyze/of), corpus + generated workloads",
         category="exploration",
